@@ -6,11 +6,6 @@ use std::str::FromStr;
 
 use crate::error::Error;
 
-// numeric characters according to parseFloat
-const NUMERICS: &'static [char] = &[
-    '0', '1', '2', '3', '4', '5', '6', '7', '8', '9', '0', '.', '-', '+', 'e', 'E',
-];
-
 // TODOS:
 // - there are too many tests in docstrings
 // - the docstrings are too sarcastic about JS equality
@@ -745,51 +740,24 @@ pub fn to_negative(val: &Value) -> Result<f64, Error> {
 
 /// Try to parse a string as a float, javascript style
 ///
-/// Strip whitespace, accumulate any potentially numeric characters at the
-/// start of the string and try to convert them into a float. We don't
-/// quite follow the spec exactly: we don't deal with infinity
-/// and NaN. That is okay, because this is only used in a context dealing
-/// with JSON values, which can't be Infinity or NaN.
+/// Skip leading whitespace, then convert the longest prefix of the string
+/// that is a valid (optionally signed) decimal literal, ignoring whatever
+/// follows it: "12px" is 12, "1-2" is 1, "1e" and "1e+" are 1. A string that
+/// does not start with a number is None (JavaScript's NaN).
 fn parse_float_string(val: &String) -> Option<f64> {
-    let (mut leading_numerics, _, _) = val.trim().chars().fold(
-        (Vec::new(), false, false),
-        |(mut acc, broke, saw_decimal), c| {
-            if broke {
-                // if we hit a nonnumeric last iter, just return what we've got
-                (acc, broke, saw_decimal)
-            } else if NUMERICS.contains(&c) {
-                let is_decimal = c == '.';
-                if saw_decimal && is_decimal {
-                    // if we're a decimal and we've seen one before, break
-                    (acc, true, is_decimal)
-                } else {
-                    // if we're a numeric, stick it on the acc
-                    acc.push(c);
-                    (acc, broke, saw_decimal || is_decimal)
-                }
-            } else {
-                // return the acc as is and let 'em know we hit a nonnumeric
-                (acc, true, saw_decimal)
-            }
-        },
-    );
-    // don't bother collecting into a string if we don't need to
-    if leading_numerics.len() == 0 {
-        return None;
+    let s = val.trim_start_matches(is_js_whitespace);
+    let (sign, unsigned) = match s.as_bytes().first() {
+        Some(b'+') => (1.0, &s[1..]),
+        Some(b'-') => (-1.0, &s[1..]),
+        _ => (1.0, s),
     };
-    if let Some('e') | Some('E') = leading_numerics.last() {
-        // If the last character is an 'e' or an `E`, remove it, to match
-        // edge case where JS ignores a trailing `e` rather than treating it
-        // as bad exponential notation, e.g. JS treats 1e as just 1.
-        leading_numerics.pop();
+    if unsigned.starts_with("Infinity") {
+        return Some(sign * f64::INFINITY);
     }
-
-    // collect into a string, try to parse as a float, return an option
-    leading_numerics
-        .iter()
-        .collect::<String>()
-        .parse::<f64>()
-        .ok()
+    match decimal_literal_len(unsigned) {
+        0 => None,
+        len => unsigned[..len].parse::<f64>().ok().map(|num| sign * num),
+    }
 }
 
 /// Attempt to parse a value into a float.
